@@ -58,3 +58,20 @@ Definition deserialize_checked (bs:list N) : dres :=
 (* ---- well-formedness = the ranges of the Go field types, offsets below 2^64-1 *)
 Definition entry_ok (e:entry) : Prop := tid e < 2^64 /\ off e < 2^64 - 1 /\ len e < 2^32 /\ run e < 2^32.
 Definition entry_okb (e:entry) : bool := (tid e <? 2^64) && (off e <? 2^64 - 1) && (len e <? 2^32) && (run e <? 2^32).
+
+(* ---- The v3 wire format, written declaratively and independently of the encoder above:
+        count, then four columns of varints: ID deltas, run lengths, lengths, offset codes, where the
+        code of entry i is either offset+1 or, for i > 0 and offset = previous offset + previous
+        length, 0 (the contiguous-offset shorthand; an encoder may or may not use it). *)
+Fixpoint sdeltas (last:N) (es:list entry) : list N :=
+  match es with [] => [] | e :: r => (tid e - last) :: sdeltas (tid e) r end.
+Inductive codes_ok : option entry -> list entry -> list N -> Prop :=
+| co_nil p : codes_ok p [] []
+| co_plain p e r cs : codes_ok (Some e) r cs -> codes_ok p (e :: r) ((off e + 1) :: cs)
+| co_short p e r cs : off e = off p + len p -> codes_ok (Some e) r cs -> codes_ok (Some p) (e :: r) (0 :: cs).
+Definition puts (vs:list N) : list N := concat (map put_uvarint vs).
+Definition wire_repr (b:list N) (es:list entry) : Prop :=
+  exists cs, codes_ok None es cs /\
+    b = put_uvarint (N.of_nat (length es)) ++ puts (sdeltas 0 es) ++ puts (map run es) ++ puts (map len es) ++ puts cs.
+Fixpoint ascending_from (last:N) (es:list entry) : Prop :=
+  match es with [] => True | e :: r => last <= tid e /\ ascending_from (tid e) r end.
